@@ -2,7 +2,8 @@ use std::cmp::max;
 use inkayaku_board::constants::ZobristHash;
 
 pub struct ZobristHistory {
-    history: [ZobristHash; 5000],
+    /// One slot for every value `Bitboard::ply_clock` (a `u16`) can take
+    history: Vec<ZobristHash>,
 }
 
 impl ZobristHistory {
@@ -40,7 +41,7 @@ impl ZobristHistory {
 
 impl Default for ZobristHistory {
     fn default() -> Self {
-        Self { history: [0; 5000] }
+        Self { history: vec![0; usize::from(u16::MAX) + 1] }
     }
 }
 
